@@ -118,7 +118,7 @@ def run_unit(u, rec):
                 err = np.max(np.abs(got - want).reshape(len(shifts), -1), axis=1)
                 i = int(np.argmax(err))
                 rec.count(states=len(shifts), transitions=len(shifts), traces=len(shifts))
-                rec.close(err[i], 2e4 * EPS * (1 + mag) * scale, f"C08/translation_repeated/{e.name}", "sub-stepping (RepeatedStepper) a translated state is not the translated result",
+                rec.close(err[i], 1e5 * EPS * (1 + mag) * scale, f"C08/translation_repeated/{e.name}", "sub-stepping (RepeatedStepper) a translated state is not the translated result",
                           D=D, N=N, order=order, shift=list(shifts[i]))
         # ---------------------------------------------------------------- axis permutations
         if D >= 2 and e.iso:
